@@ -22,7 +22,13 @@ fn observe(kb: &KeyboardMatrix, mem: &MemoryImage) -> Value {
     }
     deb.sort();
     pressed.sort();
-    json!({"kil_latch": snap.kil_latch, "fifo": kb.fifo_snapshot(), "isr": mem.read_internal_byte(0xFC).unwrap_or(0),
+    let mut ticks = serde_json::Map::new();
+    for (name, st) in snap.key_states.iter() {
+        if st.pressed || st.debounced {
+            ticks.insert(name.clone(), json!([st.pressed, st.debounced, st.press_ticks, st.release_ticks, st.repeat_ticks]));
+        }
+    }
+    json!({"ticks": ticks, "kil_latch": snap.kil_latch, "fifo": kb.fifo_snapshot(), "isr": mem.read_internal_byte(0xFC).unwrap_or(0),
            "deb": deb, "pressed": pressed, "head": snap.head, "tail": snap.tail})
 }
 
